@@ -7,7 +7,7 @@
     the order of nodes, of edges and of the members of a cluster. *)
 From Coq Require Import Permutation.
 From CG Require Import Base.Prelude Model.Dfa Spec.DotRead Spec.DotSpec Model.Dot
-     Proofs.DotLex Proofs.DotParse Proofs.DotDfaMain Proofs.DotRegex.
+     Proofs.DotLex Proofs.DotParse Proofs.DotDfaMain Proofs.DotRegex Proofs.DotRegexTotal.
 
 (** The pinned code, outside the known-finding classes: the text [DFA::to_dot] writes for a
     well-formed automaton is valid DOT and denotes exactly the prescribed graph. *)
@@ -74,32 +74,38 @@ Print Assumptions C16_label_codec.
 
 (** ** The --regex file *)
 
-(** Whenever the patched model of [Regex::to_dot] returns a text (it always does on Rust's arenas:
-    tie T1), the text is valid DOT; and when the arena is well formed ([rx_wf_b], checked on every run
-    on Rust's REGEX stage: within-word regexes contain no within-word node, every position has a leaf
-    of its input's kind reachable from the root through Cat/Or nodes) every position of the regex and
-    of every within-word regex it uses labels a node -- the latter inside [cluster_R]. *)
+(** On an arena as Rust builds them -- [rx_total_b]: children have smaller indices, every leaf's
+    position holds an input of its kind, every within-word input names a regex of the pool, roots
+    exist, within-word regexes contain no within-word node; [rx_wf_b]: every position has its leaf
+    reachable from the root through Cat/Or nodes; both checked on every run on Rust's REGEX stage --
+    the patched model of [Regex::to_dot] returns a text, the text is valid DOT, and every position of
+    the regex and of every within-word regex it uses labels a node (the latter inside [cluster_R]). *)
 Theorem C16_regex_dot_patched :
-  forall pool r text, rx_wf_b pool r = true -> Dot.of_regex_with patched pool r = Ok text ->
-    exists g, DotRead.read text = Some g /\ regex_ok g (spec_pool pool) (spec_items r).
-Proof. exact regex_dot_patched_b. Qed.
+  forall pool r, rx_total_b pool r = true -> rx_wf_b pool r = true ->
+    exists text g, Dot.of_regex_with patched pool r = Ok text /\ DotRead.read text = Some g
+                   /\ regex_ok g (spec_pool pool) (spec_items r).
+Proof. exact regex_dot_patched_total. Qed.
 Check C16_regex_dot_patched :
-  forall pool r text, rx_wf_b pool r = true -> Dot.of_regex_with patched pool r = Ok text ->
-    exists g, DotRead.read text = Some g /\ regex_ok g (spec_pool pool) (spec_items r).
+  forall pool r, rx_total_b pool r = true -> rx_wf_b pool r = true ->
+    exists text g, Dot.of_regex_with patched pool r = Ok text /\ DotRead.read text = Some g
+                   /\ regex_ok g (spec_pool pool) (spec_items r).
 Print Assumptions C16_regex_dot_patched.
 
 (** The pinned code, when no literal, description or nonterminal name contains a double quote or a
     backslash. *)
 Theorem C16_regex_dot :
-  forall pool r text, rx_wf_b pool r = true -> known_rx_all pool r = false -> Dot.of_regex pool r = Ok text ->
-    exists g, DotRead.read text = Some g /\ regex_ok g (spec_pool pool) (spec_items r).
-Proof. exact regex_dot_pinned_b. Qed.
+  forall pool r, rx_total_b pool r = true -> rx_wf_b pool r = true -> known_rx_all pool r = false ->
+    exists text g, Dot.of_regex pool r = Ok text /\ DotRead.read text = Some g
+                   /\ regex_ok g (spec_pool pool) (spec_items r).
+Proof. exact regex_dot_pinned_total. Qed.
 Check C16_regex_dot :
-  forall pool r text, rx_wf_b pool r = true -> known_rx_all pool r = false -> Dot.of_regex pool r = Ok text ->
-    exists g, DotRead.read text = Some g /\ regex_ok g (spec_pool pool) (spec_items r).
+  forall pool r, rx_total_b pool r = true -> rx_wf_b pool r = true -> known_rx_all pool r = false ->
+    exists text g, Dot.of_regex pool r = Ok text /\ DotRead.read text = Some g
+                   /\ regex_ok g (spec_pool pool) (spec_items r).
 Print Assumptions C16_regex_dot.
 
-(** The same with the hypotheses spelled out as propositions (no flatness/cover needed for validity). *)
+(** Whatever the arena, whenever the patched printer returns, the text is valid DOT (coverage is only
+    needed for "every item appears"). *)
 Theorem C16_regex_dot_valid :
   forall pool r text, pool_flat pool -> Dot.of_regex_with patched pool r = Ok text ->
     exists g, DotRead.read text = Some g
@@ -241,12 +247,12 @@ Definition ex_r : regex :=
           [RTerm 0; RSubword 1; RNt 2; RCat [1; 2]; RCommand 3; ROr [0; 3; 4]; RStar 5; RCat [5; 6]; REnd 4; RCat [7; 8]].
 
 Example ex_C16_regex_inhabited :
-  rx_wf_b ex_pool ex_r = true /\ known_rx_all ex_pool ex_r = false
+  rx_total_b ex_pool ex_r = true /\ rx_wf_b ex_pool ex_r = true /\ known_rx_all ex_pool ex_r = false
   /\ exists text g, Dot.of_regex ex_pool ex_r = Ok text /\ DotRead.read text = Some g
                     /\ List.length (g_nodes g) = 17%nat /\ List.length (g_subs g) = 1%nat
                     /\ regex_missing g (spec_pool ex_pool) (spec_items ex_r) = [].
 Proof.
-  split; [vm_compute; reflexivity|]. split; [vm_compute; reflexivity|].
+  split; [vm_compute; reflexivity|]. split; [vm_compute; reflexivity|]. split; [vm_compute; reflexivity|].
   eexists. eexists. split; [vm_compute; reflexivity|]. split; [vm_compute; reflexivity|].
   repeat (split; [vm_compute; reflexivity|]). vm_compute; reflexivity.
 Qed.
